@@ -39,6 +39,7 @@ type C16Case struct {
 	// items mode: reconcile outcome script per queue item (ok error requeue requeue-err skip panic)
 	Items       map[string][]string `json:"items,omitempty"`
 	Concurrency int                 `json:"concurrency,omitempty"`
+	WorkMs      int                 `json:"work_ms,omitempty"`
 	Touch       []WriteOp           `json:"touch,omitempty"`
 	// Track: writer probes bracket their writes with StartTrackingOutputs / CleanupOutputs
 	Track bool `json:"track,omitempty"`
@@ -72,6 +73,7 @@ func (c16) Gen(seed uint64, tier string) Case {
 	if c.Mode == "items" {
 		// failing queue items: retried with growing, success-resettable backoff, without blocking other items
 		c.Concurrency = 1 + r.Intn(3)
+		c.WorkMs = []int{0, 0, 300, 2500}[r.Intn(4)]
 		c.Items = map[string][]string{}
 		for i := 0; i < 1+r.Intn(3); i++ {
 			var sc []string
@@ -342,7 +344,7 @@ func checkBackoffGrowth(what string, first, deep []time.Duration, desc string, o
 func (c16) Run(t *testing.T, cs Case, trace bool) *Outcome {
 	c := cs.(*C16Case)
 	if c.Mode == "items" {
-		return runItemBackoff(t, "C16", &C09Case{Common: c.Common, Part: "backoff", Script: c.Items, Concurrency: c.Concurrency, Touch: c.Touch}, trace)
+		return runItemBackoff(t, "C16", &C09Case{Common: c.Common, Part: "backoff", Script: c.Items, Concurrency: c.Concurrency, Touch: c.Touch, WorkMs: c.WorkMs}, trace)
 	}
 	out := &Outcome{}
 	var acks []Ack
